@@ -43,7 +43,7 @@ def main():
             try:
                 res = []
                 for c in caught_by[:1]:
-                    rc, out = sh(f"./check {c} quick", ROOT, env={"PYPRED_REPO": WT})
+                    rc, out = sh(f"./check {c} quick", ROOT, env={"PYPRED_REPO": WT, "VERIF_EVIDENCE_DIR": "/tmp/seeded_evidence"})
                     res.append((c, rc))
             finally:
                 sh("git checkout -- . && git clean -fdq", WT)
